@@ -29,6 +29,11 @@ pub fn types() -> Vec<Ty> {
         Ty::F64 { min: None, max: None },
         Ty::F32 { min: Some(0.0), max: Some(1.0) },
         Ty::F64 { min: Some(-1.0), max: Some(1.0) },
+        // float limits given on one side only
+        Ty::F32 { min: None, max: Some(5.5) },
+        Ty::F32 { min: Some(-0.25), max: None },
+        Ty::F64 { min: None, max: Some(1e300) },
+        Ty::F64 { min: Some(f64::MIN_POSITIVE), max: None },
     ];
     for (a, b) in int_ranges() {
         t.push(Ty::Int { min: a, max: b });
